@@ -89,3 +89,27 @@ _LN = "Trusted base: the simulator (kernel, fakes, model Bridge) and the referen
 for _p, _t in _LT.items():
     PROPS[_p]["level_text"] = _t
     PROPS[_p]["level_note"] = _LN
+
+PROPS["C05"] = dict(
+    level="fault_enumeration", budget=dict(quick=90, thorough=900),
+    groups=[
+        dict(name="clean", harness="cluster", weight=1, runs=dict(quick=600, thorough=10000), opts=dict(lossy=False, jitter=True)),
+        dict(name="taskfail", harness="cluster", weight=2, runs=dict(quick=800, thorough=20000), opts=dict(faults=["task_raise", "task_exit0", "task_exit3", "task_raise_mid"])),
+        dict(name="killworker", harness="cluster", weight=2, runs=dict(quick=800, thorough=20000), opts=dict(faults=["kill_worker"])),
+        dict(name="killdata", harness="cluster", weight=2, runs=dict(quick=600, thorough=15000), opts=dict(faults=["kill_data"])),
+        dict(name="killshm", harness="cluster", weight=2, runs=dict(quick=600, thorough=15000), opts=dict(faults=["kill_shm"])),
+    ],
+    rule="run = (job, cluster shape, schedule, one or two crash faults: task raises / sys.exit(0|3) / raises between outputs / worker, data server or shm server "
+         "killed at its n-th seam call after registration); distinct = distinct event-log digest; non-trivial = a fault fired while at least one task was unfinished or the run did not return normally",
+    real=REAL_CLUSTER, stub=STUB_CLUSTER,
+    assumptions=["executor and controller processes are never killed (the property is conditional on the owning executor being alive)",
+                 "bounded end = 300 virtual seconds after the last fault (child death polled every <=0.8 s, 20 x 0.8 s retries, 180 s shutdown grace); clean exit within a further 200 s",
+                 "a kill unwinds the victim's Python stack with every seam call suppressed (a SIGKILLed process sends nothing)"],
+    level_text="seeded crash-fault injection into the whole real cluster on the simulated network, plus enumeration of every kill point of the chosen process along recorded base schedules; oracle: bounded end, never a wrong value, clean exit (no child, no segment) - also after every fault-free run",
+    level_note=_LN,
+)
+
+PROPS["C05"]["groups"] += [
+    dict(name="enum-kill", harness="cluster", weight=4, runs=dict(quick=64, thorough=4000), opts=dict(lossy=False, jitter=True, nmax=6),
+         enumerate=dict(kinds=["kill_worker", "kill_data", "kill_shm", "task"], quick=60, thorough=None)),
+]
